@@ -102,7 +102,8 @@ def audit(prop):
     """Returns dict(obligations, discharged, undischarged[list of (name, reason)], axioms{name:[...]})."""
     obs = obligations(prop)
     mod = f"PlatypusModel.Props.{prop}"
-    ok, log = lean_build([mod])
+    mods = [mod] + sorted({v["module"] for v in obs.values() if v.get("module")})
+    ok, log = lean_build(mods)
     res = {"obligations": len(obs), "discharged": 0, "undischarged": [], "axioms": {},
            "build_ok": ok, "build_log": "" if ok else log,
            "checker_cmd": f"cd lean && lake build {mod} && lake env lean .audit/Audit_{prop}.lean  # #print axioms of {len(obs)} registered theorems"}
@@ -114,9 +115,10 @@ def audit(prop):
     os.makedirs(os.path.join(LEAN, ".audit"), exist_ok=True)
     af = os.path.join(LEAN, ".audit", f"Audit_{prop}.lean")
     with open(af, "w") as f:
-        f.write(f"import {mod}\n")
+        for m_ in mods:
+            f.write(f"import {m_}\n")
         for n in obs:
-            f.write(f"#print axioms {n}\n")
+            f.write(f"#print axioms {n.split('@')[0]}\n")
     lk = _lock()
     try:
         p = subprocess.run(["lake", "env", "lean", af], cwd=LEAN, capture_output=True, text=True, timeout=900)
@@ -125,7 +127,7 @@ def audit(prop):
     out = p.stdout + p.stderr
     flat = re.sub(r"\s+", " ", out)
     for n in obs:
-        m = re.search(r"'" + re.escape(n) + r"' (does not depend on any axioms|depends on axioms: \[([^\]]*)\])", flat)
+        m = re.search(r"'" + re.escape(n.split('@')[0]) + r"' (does not depend on any axioms|depends on axioms: \[([^\]]*)\])", flat)
         if not m:
             res["undischarged"].append((n, "theorem missing or does not elaborate"))
             continue
